@@ -94,14 +94,15 @@ def validate_execute_step(a):
 def replay_exit_codes(a, structured=False, fmt="json"):
     """plain `validate` over sequences of <= 3 rules files (PASS / FAIL / SKIP / syntactically broken / comment-only) on one document, as
     files and as a --payload document: exit 0 iff nothing failed or errored, 19 if all parse and one FAILs, 5 if one does
-    not parse and nothing FAILs, non-zero otherwise"""
+    not parse and nothing FAILs, non-zero otherwise; a rules file whose evaluation is an ERROR gives an exit code that is neither 0 nor 19"""
     import itertools, json, os, shutil, subprocess, tempfile
     exe = a.cli()
     if not exe:
         return {"reproduced": False, "note": "native build failed"}
     texts = {"P": "rule p { a == 1 }\n", "F": "rule f { a == 2 }\n", "S": "rule s when a == 2 { a == 1 }\n", "B": "rule b { a == }\n",
-             "E": "# nothing but a comment\n"}
-    data = '{"a": 1}\n'
+             "E": "# nothing but a comment\n",
+             "X": "let v = parse_int(s)\nrule x { %v == 1 }\n"}          # parses, but evaluating it is an error (s is not a number)
+    data = '{"a": 1, "s": "abc"}\n'
     d = tempfile.mkdtemp(prefix="cfnverif_replay_")
     out = []
     try:
@@ -109,8 +110,10 @@ def replay_exit_codes(a, structured=False, fmt="json"):
         for k, t in texts.items():
             open(os.path.join(d, f"{k}.guard"), "w").write(t)
         seqs = [s for n in (1, 2, 3) for s in itertools.product("PFSBE", repeat=n)]
+        seqs += [s for n in (1, 2, 3) for s in itertools.product("PFSBX", repeat=n) if "X" in s]
         for seq in seqs:
-            exp = ("zero" if not set(seq) & {"F", "B"} else "19" if "B" not in seq else "5" if "F" not in seq else "nonzero")
+            exp = ("error" if "X" in seq else
+                   "zero" if not set(seq) & {"F", "B"} else "19" if "B" not in seq else "5" if "F" not in seq else "nonzero")
             for mode in ("files", "payload"):
                 if mode == "files":
                     cmd = [exe, "validate", "-d", os.path.join(d, "d.json"), "--show-summary", "none"]
@@ -127,7 +130,7 @@ def replay_exit_codes(a, structured=False, fmt="json"):
                     cmd += ["--structured", "-o", fmt]
                 pr = subprocess.run(cmd, input=inp, stdout=subprocess.PIPE, stderr=subprocess.PIPE, text=True, timeout=120)
                 rc = pr.returncode
-                ok = {"zero": rc == 0, "19": rc == 19, "5": rc == 5, "nonzero": rc != 0}[exp]
+                ok = {"zero": rc == 0, "19": rc == 19, "5": rc == 5, "nonzero": rc != 0, "error": rc not in (0, 19)}[exp]
                 if not ok:
                     out.append({"rules_files": [texts[k] for k in seq], "mode": mode, "expected_exit": exp, "observed_exit": rc})
         return {"reproduced": bool(out), "mismatches": out[:5], "document": data, "sequences_tried": len(seqs) * 2}
@@ -1920,7 +1923,8 @@ def scope_resolution(a):
     for label, selfty, has_parent in (("BlockScope", "BlockScope", True), ("RootScope", "RootScope", False)):
         ex = a.exec(SCOPE_IMPL + "resolve_variable",
                     {"get": mirexec.m_option, "query_retrieval": m_result_opq, "resolve_function": m_result_opq,
-                     "resolve_variable": m_result_opq, "root": lambda ex, av: ex.opq(), RC_NEW: mirexec.m_identity},
+                     "resolve_variable": m_result_opq, "root": lambda ex, av: ex.opq(), RC_NEW: mirexec.m_identity,
+                     "box_assume_init_into_vec_unsafe": mirexec.m_vec_from_array},
                     log=("insert",), unroll=1, max_paths=20000, first_arg_re=r"_1: &mut (?:eval_context::)?" + selfty)
         a.fns.append(f"rules::eval_context::{label}::resolve_variable")
         me, name = ex.arg_env["_1"], ex.arg_env["_2"]
@@ -1968,6 +1972,22 @@ def scope_resolution(a):
                 # answered from the literals / the cache, or an error because nothing defines the name
                 some = "(or false " + " ".join(f"(= {t} 1)" for t in found.values()) + ")"
                 parts.append(f"(= (= {r[2]} 0) {some})")
+                # a literal is answered as [Literal(that value)] - the literal table is asked FIRST and answers alone - and the cache
+                # answers with what it holds; neither writes anything (a literal never becomes a cached query result)
+                if calls(p, "insert"):
+                    probs.append("a literal / cached answer writes a table")
+                lit = [g for g in gets if same(g[2][0], maps["literals"])]
+                okv = r[3].get("Ok")
+                if "literals" in found and lit and f"(= {found['literals']} 1)" in p.pc:
+                    val = lit[0][3][3].get("Some")
+                    shape = (okv is not None and okv[0] == "array" and len(okv[1]) == 1 and okv[1][0][0] == "variant" and okv[1][0][2] == "Literal"
+                             and okv[1][0][3] == [val] and set(found) == {"literals"})
+                    if not shape:
+                        probs.append("a literal variable is not answered as [Literal(its value)] by the literal table alone")
+                elif "resolved_variables" in found and f"(= {found['resolved_variables']} 1)" in p.pc:
+                    cg = [g for g in gets if same(g[2][0], maps["resolved_variables"])]
+                    if not (cg and okv is not None and same(okv, cg[0][3][3].get("Some")) and "literals" in found):
+                        probs.append("a cached variable is not answered with the cached values (after the literal table said no)")
             good = "false" if probs else "(and true " + " ".join(parts) + ")"
             bad.append(f"(and {pc_term(p.pc)} (not {good}))")
         c = a.discharge(f"{label}::resolve_variable/lookup", ex, bad,
@@ -2004,6 +2024,30 @@ def replay_variables(a):
         got = "PASS" if "t" in r.get("compliant", []) else ("SKIP" if "t" in r.get("not_applicable", []) else "FAIL")
         if got != exp:
             out.append({"rules_file": rules, "expected": exp, "observed": got})
+    # every reference to a variable sees the same value: using a block-level literal once, twice, or in another order gives the status
+    # of the literal written in place (operators whose meaning depends on the operand being a literal: string `in` string, one-element list ==)
+    data2 = '{"s1": "audit", "s2": "prod-audit-logs", "one": [1], "n": 1}\n'
+    groups = [
+        ["rule t {\n  s1 in 'prod-audit-logs'\n  s2 in 'prod-audit-logs'\n}\n",
+         "rule t {\n  let f = 'prod-audit-logs'\n  s1 in %f\n  s2 in %f\n}\n", "rule t {\n  let f = 'prod-audit-logs'\n  s2 in %f\n  s1 in %f\n}\n",
+         "rule t {\n  let f = 'prod-audit-logs'\n  s1 in %f\n  s1 in %f\n  s2 in %f\n}\n",
+         "let f = 'prod-audit-logs'\nrule t {\n  s1 in %f\n  s2 in %f\n}\n"],
+        ["rule t {\n  s1 in 'prod-audit-logs'\n}\n", "rule t {\n  let f = 'prod-audit-logs'\n  s1 in %f\n}\n",
+         "rule t {\n  let f = 'prod-audit-logs'\n  s1 in %f\n  s1 in %f\n}\n",
+         "rule t {\n  when n == 1 {\n    let f = 'prod-audit-logs'\n    s1 in %f\n    s1 in %f\n  }\n}\n"],
+        ["rule t {\n  one == [1]\n  n == [1]\n}\n", "rule t {\n  let l = [1]\n  one == %l\n  n == %l\n}\n", "rule t {\n  let l = [1]\n  n == %l\n  one == %l\n}\n"],
+    ]
+    for g in groups:
+        seen = []
+        for rules in g:
+            rc, rep, err = a.run_structured(exe, rules, [data2])
+            if not (rep and isinstance(rep, list) and rep):
+                seen.append(f"ERROR (exit {rc})")
+                continue
+            r = rep[0]
+            seen.append("PASS" if "t" in r.get("compliant", []) else ("SKIP" if "t" in r.get("not_applicable", []) else "FAIL"))
+        if len(set(seen)) != 1:
+            out.append({"equivalent_rule_files": g, "statuses": seen, "expected": "all equal (the first is the literal written in place)", "data": data2})
     real = [o for o in out if "problem" not in o]
     return {"reproduced": bool(real), "mismatches": out[:4], "data": data}
 
@@ -3661,7 +3705,7 @@ SITES = {
     "C09": [report_partition, report_rule_listing, report_clause_content, report_combine_union, unary_empty_on_expr, param_ctx_end_record],
     "C10": [report_clause_content],
     "C15": [scope_resolution, scope_discipline, scope_delegations, variable_tables, param_rule_call, param_ctx_resolve],
-    "C04": [rule_status_semantics, root_scope_rule_table, scope_delegations],
+    "C04": [rule_status_semantics, root_scope_rule_table, scope_delegations, scope_resolution],
     "C01": [rule_status_semantics, root_scope_rule_table, scope_discipline],
     "C17": [merge_map, merge_unwrap, param_files_fold_step, data_input_params_wiring, structured_merge_closure],
     "C08": [merge_unwrap, rulegen_unwrap, test_exit_code_domain],
